@@ -11,7 +11,7 @@
                          it stands for, and they are numbered in increasing order
      cons_red s red    : s sets every ancilla to the product it stands for *)
 From QV.Model Require Import Base Matrix Arith Convert Reduce.
-From QV.Proofs Require Import BaseProofs KeyProofs ArithProofs InvProofs ConvertProofs PenaltyArith ReduceProofs.
+From QV.Proofs Require Import BaseProofs KeyProofs ArithProofs InvProofs ConvertProofs PenaltyArith ReduceProofs ReduceRenumbered.
 Open Scope Q_scope.
 
 (* everything at once, for any penalty setting and any pairs hint *)
@@ -87,6 +87,28 @@ Theorem C01_spin_lower : forall m out deg l pairs P D,
 Proof. exact spin_reduce_lower. Qed.
 Print Assumptions C01_spin_lower.
 
+(* the same two statements for a model renumbered by the user (set_mapping / set_reverse_mapping with the model's labels and
+   pairwise different integers below their number): D is labelled by the installed numbering mpx, and convert_solution reads
+   assignments of D back through mpx *)
+Theorem C01_renumbered_extension : forall m mpx out deg l pairs D,
+  Inv m -> is_labelled (kd m) = true ->
+  (forall i, In i (map fst mpx) <-> In i (map fst (mp m))) -> NoDup (map fst mpx) -> snd_ok mpx ->
+  reduce_degree (set_mapping m mpx) out deg l pairs = Ok D -> bmat out ->
+  forall x, boolean_env x ->
+  exists s, boolean_env s /\ (forall l0 n, mp_get l0 mpx = Some n -> s n == x l0) /\ eval s (tm D) == eval x (tm m).
+Proof. exact reduce_extension_renumbered. Qed.
+Print Assumptions C01_renumbered_extension.
+Theorem C01_renumbered_minimiser : forall m mpx out deg l pairs D,
+  Inv m -> is_labelled (kd m) = true ->
+  (forall i, In i (map fst mpx) <-> In i (map fst (mp m))) -> NoDup (map fst mpx) -> snd_ok mpx ->
+  reduce_degree (set_mapping m mpx) out deg l pairs = Ok D -> bmat out ->
+  (forall ms, mapped_self mpx (tm m) = Ok ms -> forall k v, In (k, v) ms -> Qabs v <= lam_fun l v) ->
+  forall s, boolean_env s -> (forall s', boolean_env s' -> eval s (tm D) <= eval s' (tm D)) ->
+  let x := pull mpx s in
+  eval x (tm m) == eval s (tm D) /\ forall x', boolean_env x' -> eval x (tm m) <= eval x' (tm m).
+Proof. exact reduce_minimiser_renumbered. Qed.
+Print Assumptions C01_renumbered_minimiser.
+
 (* the inequality every substitution step rests on: replacing b*c by the ancilla a in a term v*b*c*R costs at most the gadget *)
 Theorem C01_step : forall a b c R v lam, is_bool a -> is_bool b -> is_bool c -> is_bool R -> Qabs v <= lam ->
   v * (b * c * R) <= v * (a * R) + lam * (3 * a + b * c - 2 * b * a - 2 * c * a).
@@ -99,3 +121,20 @@ Example C01_example :
     /\ kd D = KQuboM /\ forallb (fun '(k, _) => (length k <=? 2)%nat) (tm D) = true
     /\ existsb (fun '(k, _) => existsb (Nat.eqb 4) k) (tm D) = true.
 Proof. eexists. eexists. vm_compute. repeat split. Qed.
+
+(* non-vacuity of the renumbered statements: the same model numbered 0 -> 1, 1 -> 2, 2 -> 0, 3 -> 3 (a 3-cycle, not its own
+   inverse) meets the side conditions on the numbering and reduces to a quadratic form whose ancilla is again label 4 *)
+Example C01_example_renumbered :
+  let mpx := [(0, 1); (1, 2); (2, 0); (3, 3)]%nat in
+  NoDup (map fst mpx) /\ snd_ok mpx /\
+  exists m D, m_create KPubo [([0; 1; 2]%nat, 1); ([0; 1; 3]%nat, -(2))] = Ok m /\
+    (forall i, In i (map fst mpx) <-> In i (map fst (mp m))) /\
+    pubo_to_qubo (set_mapping m mpx) LDefault [] = Ok D
+    /\ kd D = KQuboM /\ forallb (fun '(k, _) => (length k <=? 2)%nat) (tm D) = true
+    /\ existsb (fun '(k, _) => existsb (Nat.eqb 4) k) (tm D) = true.
+Proof.
+  cbv zeta. split; [|split].
+  - cbn. repeat constructor; cbn; intuition discriminate.
+  - split; cbn; [repeat constructor; cbn; intuition discriminate | intros n H; repeat (destruct H as [<-|H]; [repeat constructor|]); destruct H].
+  - eexists. eexists. split; [vm_compute; reflexivity|]. split; [cbn; tauto|]. vm_compute. repeat split.
+Qed.
